@@ -8,18 +8,35 @@
     ([cf_now]); `Ktie_write_lib` starts from a new writer (`LefWriter::new`: indentation 0, version 5.8, nothing written).
     Parser (family lef_parse; reading Lef/KernelsInstLefRead.v: monadic self = the model's parser state [pst], the lexer external, loops on
     the fuel the state gives; proofs Lef/KernelsTieLefRead_proofs.v): the token-level helpers and the whole of `parse_density` are the model's
-    functions, the error value apart ([lunit]). *)
+    functions, the error value apart ([lunit]).
+    Parser, second part (family lef_parse2; Gen/KernelsLefRead2Gen.v, unit "lefr2"; reading Lef/KernelsInstLefRead2.v: the helpers of the first
+    part external = the model's functions; proofs Lef/KernelsTieLefRead2_proofs.v): the statement parsers `parse_units`, `parse_size`,
+    `parse_symmetries`, `parse_macro_class`, `parse_site_def`, `parse_property`, `parse_pin_direction`, the geometry parsers (`parse_geometry_mask`,
+    `parse_iterate`, `parse_step_pattern`, `parse_point_list`, `parse_geometry_tail`, `parse_geometry`) and `expect_and_get_str`, `get_name`,
+    `expect_ident` are the model's functions; where the model carries a variant flag the tie is stated for the reader as it is now
+    ([RI2.cfr_now]).
+    Parser, third part (family lef_parse3; same generated file and reading; proofs Lef/KernelsTieLefRead3_proofs.v): `parse_layer_geometries` (both
+    loops, the builder), `parse_via_shape`, `parse_via_layer_geometries`, `parse_obstructions`, `parse_port`, `parse_property_definition_tail`,
+    `parse_property_definitions`.
+    Parser, the big loops (family lef_parse_lib; proofs Lef/KernelsTieLefReadL_proofs.v): the whole of `parse_pin` ([RI2.cfr_now_props]: the
+    properties reach the builder); family lef_parse_macro (proofs Lef/KernelsTieLefReadM_proofs.v): the whole of `parse_macro`. *)
 From Coq Require Import ZArith Bool List String.
 From L21 Require Import Lef.LefDec Lef.LefData Lef.LefLex Lef.LefParse Lef.LefWrite.
 From L21 Require Import Base.KernelOps Base.KernelOpsX Base.Outcome Gen.KernelsLefWriteGen Lef.KernelsInstLefWrite.
 From L21 Require Lef.KernelsTieLefWrite_proofs Lef.KernelsTieLefWriteL_proofs.
 From L21 Require Lef.KernelsInstLefRead Lef.KernelsTieLefRead_proofs.
+From L21 Require Lef.KernelsInstLefRead2 Lef.KernelsTieLefRead2_proofs Lef.KernelsTieLefRead3_proofs Lef.KernelsTieLefReadL_proofs Lef.KernelsTieLefReadM_proofs.
 Import ListNotations.
 Local Open Scope Z_scope.
 Module W := Lef.KernelsTieLefWrite_proofs.
 Module WL := Lef.KernelsTieLefWriteL_proofs.
 Module RI := Lef.KernelsInstLefRead.
 Module R := Lef.KernelsTieLefRead_proofs.
+Module RI2 := Lef.KernelsInstLefRead2.
+Module R2 := Lef.KernelsTieLefRead2_proofs.
+Module R3 := Lef.KernelsTieLefRead3_proofs.
+Module RL := Lef.KernelsTieLefReadL_proofs.
+Module RM := Lef.KernelsTieLefReadM_proofs.
 
 Theorem Ktie_format_mask : forall m s, g_format_mask m s = Ok (format_mask m, s).
 Proof. exact W.tie_format_mask. Qed.
@@ -94,6 +111,105 @@ Theorem Ktie_parse_density : forall s, RI.backl (map RI.Mdgeoms) (RI.g_parse_den
 Proof. exact (R.tie_parse_density cf src). Qed.
 End Parser.
 
+(** * the parser, second part (family lef_parse2) *)
+Section Parser2.
+Variable cf : cfg.
+Variable src : bytes.
+Theorem Ktie_parse_size : forall s, RI2.g_parse_size cf src s = RI.lunit (parse_size cf src s).
+Proof. exact (R2.tie_parse_size cf src). Qed.
+Theorem Ktie_parse_units : forall s, RI.backl RI2.Munits (RI2.g_parse_units cf src s) = RI.lunit (parse_units cf src s).
+Proof. exact (R2.tie_parse_units cf src). Qed.
+Theorem Ktie_parse_symmetries : forall s, RI.backl (map RI2.MLefSymmetry) (RI2.g_parse_symmetries cf src s) = RI.lunit (parse_symmetries cf src s).
+Proof. exact (R2.tie_parse_symmetries cf src). Qed.
+Theorem Ktie_parse_macro_class : forall s, RI.backl RI2.Mmacro_class (RI2.g_parse_macro_class cf src s) = RI.lunit (parse_macro_class cf src s).
+Proof. exact (R2.tie_parse_macro_class cf src). Qed.
+Theorem Ktie_expect_and_get_str : forall t s, RI2.g_expect_and_get_str cf src (RI2.Gtty t) s = RI.lunit (expect_and_get_str cf src t s).
+Proof. exact (R2.tie_expect_and_get_str cf src). Qed.
+Theorem Ktie_get_name : forall s, RI2.g_get_name cf src s = RI.lunit (get_name cf src s).
+Proof. exact (R2.tie_get_name cf src). Qed.
+Theorem Ktie_expect_ident : forall id s, RI2.g_expect_ident cf src id s = RI.lunit (expect_ident cf src id s).
+Proof. exact (R2.tie_expect_ident cf src). Qed.
+Theorem Ktie_parse_site_def : forall s, RI.backl RI2.Msite (RI2.g_parse_site_def cf src s) = RI.lunit (parse_site_def cf src s).
+Proof. exact (R2.tie_parse_site_def cf src). Qed.
+Theorem Ktie_parse_property : forall acc s, RI.backl (map RI2.Mproperty) (RI2.g_parse_property cf src acc s) = RI.lunit (parse_property cf src (map RI2.Mproperty acc) s).
+Proof. exact (R2.tie_parse_property cf src). Qed.
+Theorem Ktie_parse_pin_direction : forall s, RI.backl RI2.Mpin_direction (RI2.g_parse_pin_direction cf src s) = RI.lunit (parse_pin_direction cf src s).
+Proof. exact (R2.tie_parse_pin_direction cf src). Qed.
+Theorem Ktie_parse_geometry_mask : forall s, RI.backl RI2.Mmask (RI2.g_parse_geometry_mask cf src s) = RI.lunit (parse_geometry_mask cf src s).
+Proof. exact (R2.tie_parse_geometry_mask cf src). Qed.
+Theorem Ktie_parse_iterate : forall s, RI2.g_parse_iterate cf src s = RI.lunit (parse_iterate cf src s).
+Proof. exact (R2.tie_parse_iterate cf src). Qed.
+Theorem Ktie_parse_step_pattern : forall s, RI.backl RI2.Mstep (RI2.g_parse_step_pattern cf src s) = RI.lunit (parse_step_pattern cf src s).
+Proof. exact (R2.tie_parse_step_pattern cf src). Qed.
+Theorem Ktie_parse_geometry_tail : forall it sh s, RI.backl RI2.Mgeometry (RI2.g_parse_geometry_tail cf src it sh s) = RI.lunit (parse_geometry_tail cf src it (RI2.Mshape sh) s).
+Proof. exact (R2.tie_parse_geometry_tail cf src). Qed.
+Section ReaderNow.
+Hypothesis Hcf : RI2.cfr_now cf.
+Theorem Ktie_parse_point_list : forall s, RI.backl (map RI2.Mpoint) (RI2.g_parse_point_list cf src s) = RI.lunit (parse_point_list cf src s).
+Proof. exact (R2.tie_parse_point_list cf src Hcf). Qed.
+Theorem Ktie_parse_geometry : forall s, RI.backl RI2.Mgeometry (RI2.g_parse_geometry cf src s) = RI.lunit (parse_geometry cf src s).
+Proof. exact (R2.tie_parse_geometry cf src Hcf). Qed.
+End ReaderNow.
+End Parser2.
+Check Ktie_parse_size : forall cf src, forall s, RI2.g_parse_size cf src s = RI.lunit (parse_size cf src s).
+Check Ktie_parse_units : forall cf src, forall s, RI.backl RI2.Munits (RI2.g_parse_units cf src s) = RI.lunit (parse_units cf src s).
+Check Ktie_parse_symmetries : forall cf src, forall s, RI.backl (map RI2.MLefSymmetry) (RI2.g_parse_symmetries cf src s) = RI.lunit (parse_symmetries cf src s).
+Check Ktie_parse_macro_class : forall cf src, forall s, RI.backl RI2.Mmacro_class (RI2.g_parse_macro_class cf src s) = RI.lunit (parse_macro_class cf src s).
+Check Ktie_expect_and_get_str : forall cf src, forall t s, RI2.g_expect_and_get_str cf src (RI2.Gtty t) s = RI.lunit (expect_and_get_str cf src t s).
+Check Ktie_get_name : forall cf src, forall s, RI2.g_get_name cf src s = RI.lunit (get_name cf src s).
+Check Ktie_expect_ident : forall cf src, forall id s, RI2.g_expect_ident cf src id s = RI.lunit (expect_ident cf src id s).
+Check Ktie_parse_site_def : forall cf src, forall s, RI.backl RI2.Msite (RI2.g_parse_site_def cf src s) = RI.lunit (parse_site_def cf src s).
+Check Ktie_parse_property : forall cf src, forall acc s, RI.backl (map RI2.Mproperty) (RI2.g_parse_property cf src acc s) = RI.lunit (parse_property cf src (map RI2.Mproperty acc) s).
+Check Ktie_parse_pin_direction : forall cf src, forall s, RI.backl RI2.Mpin_direction (RI2.g_parse_pin_direction cf src s) = RI.lunit (parse_pin_direction cf src s).
+Check Ktie_parse_geometry_mask : forall cf src, forall s, RI.backl RI2.Mmask (RI2.g_parse_geometry_mask cf src s) = RI.lunit (parse_geometry_mask cf src s).
+Check Ktie_parse_iterate : forall cf src, forall s, RI2.g_parse_iterate cf src s = RI.lunit (parse_iterate cf src s).
+Check Ktie_parse_step_pattern : forall cf src, forall s, RI.backl RI2.Mstep (RI2.g_parse_step_pattern cf src s) = RI.lunit (parse_step_pattern cf src s).
+Check Ktie_parse_geometry_tail : forall cf src, forall it sh s, RI.backl RI2.Mgeometry (RI2.g_parse_geometry_tail cf src it sh s) = RI.lunit (parse_geometry_tail cf src it (RI2.Mshape sh) s).
+Check Ktie_parse_point_list : forall cf src, RI2.cfr_now cf -> forall s, RI.backl (map RI2.Mpoint) (RI2.g_parse_point_list cf src s) = RI.lunit (parse_point_list cf src s).
+Check Ktie_parse_geometry : forall cf src, RI2.cfr_now cf -> forall s, RI.backl RI2.Mgeometry (RI2.g_parse_geometry cf src s) = RI.lunit (parse_geometry cf src s).
+
+(** * the parser, third part (family lef_parse3) *)
+Section Parser3.
+Variable cf : cfg.
+Variable src : bytes.
+Hypothesis Hcf : RI2.cfr_now cf.
+Theorem Ktie_parse_via_shape : forall s, RI.backl RI2.Mvia_shape (RI2.g_parse_via_shape cf src s) = RI.lunit (parse_via_shape cf src s).
+Proof. exact (R3.tie_parse_via_shape cf src Hcf). Qed.
+Theorem Ktie_parse_via_layer_geometries : forall s, RI.backl RI2.Mvia_layer_geoms (RI2.g_parse_via_layer_geometries cf src s) = RI.lunit (parse_via_layer_geometries cf src s).
+Proof. exact (R3.tie_parse_via_layer_geometries cf src Hcf). Qed.
+Theorem Ktie_parse_property_definition_tail : forall s, RI.backl (R3.Mtail) (RI2.g_parse_property_definition_tail cf src s) = RI.lunit (parse_property_definition_tail cf src s).
+Proof. exact (R3.tie_parse_property_definition_tail cf src). Qed.
+Theorem Ktie_parse_property_definitions : forall s, RI.backl (map RI2.Mpropdef) (RI2.g_parse_property_definitions cf src s) = RI.lunit (parse_property_definitions cf src s).
+Proof. exact (R3.tie_parse_property_definitions cf src). Qed.
+Theorem Ktie_parse_layer_geometries : forall s, RI.backl RI2.Mlayer_geoms (RI2.g_parse_layer_geometries cf src s) = RI.lunit (parse_layer_geometries cf src s).
+Proof. exact (R3.tie_parse_layer_geometries cf src Hcf). Qed.
+Theorem Ktie_parse_obstructions : forall s, RI.backl (map RI2.Mlayer_geoms) (RI2.g_parse_obstructions cf src s) = RI.lunit (parse_obstructions cf src s).
+Proof. exact (R3.tie_parse_obstructions cf src Hcf). Qed.
+Theorem Ktie_parse_port : forall s, RI.backl RI2.Mport (RI2.g_parse_port cf src s) = RI.lunit (parse_port cf src s).
+Proof. exact (R3.tie_parse_port cf src Hcf). Qed.
+End Parser3.
+Check Ktie_parse_via_shape : forall cf src, RI2.cfr_now cf -> forall s, RI.backl RI2.Mvia_shape (RI2.g_parse_via_shape cf src s) = RI.lunit (parse_via_shape cf src s).
+Check Ktie_parse_via_layer_geometries : forall cf src, RI2.cfr_now cf -> forall s, RI.backl RI2.Mvia_layer_geoms (RI2.g_parse_via_layer_geometries cf src s) = RI.lunit (parse_via_layer_geometries cf src s).
+Check Ktie_parse_property_definition_tail : forall cf src, forall s, RI.backl (R3.Mtail) (RI2.g_parse_property_definition_tail cf src s) = RI.lunit (parse_property_definition_tail cf src s).
+Check Ktie_parse_property_definitions : forall cf src, forall s, RI.backl (map RI2.Mpropdef) (RI2.g_parse_property_definitions cf src s) = RI.lunit (parse_property_definitions cf src s).
+Check Ktie_parse_layer_geometries : forall cf src, RI2.cfr_now cf -> forall s, RI.backl RI2.Mlayer_geoms (RI2.g_parse_layer_geometries cf src s) = RI.lunit (parse_layer_geometries cf src s).
+Check Ktie_parse_obstructions : forall cf src, RI2.cfr_now cf -> forall s, RI.backl (map RI2.Mlayer_geoms) (RI2.g_parse_obstructions cf src s) = RI.lunit (parse_obstructions cf src s).
+Check Ktie_parse_port : forall cf src, RI2.cfr_now cf -> forall s, RI.backl RI2.Mport (RI2.g_parse_port cf src s) = RI.lunit (parse_port cf src s).
+
+(** * the parser, the big loops (family lef_parse_lib) *)
+Section ParserL.
+Variable cf : cfg.
+Variable src : bytes.
+Hypothesis Hcf : RI2.cfr_now cf.
+Hypothesis Hcfp : RI2.cfr_now_props cf.
+Theorem Ktie_parse_pin : forall s, RI.backl RI2.Mpin (RI2.g_parse_pin cf src s) = RI.lunit (parse_pin cf src s).
+Proof. exact (RL.tie_parse_pin cf src Hcf Hcfp). Qed.
+Theorem Ktie_parse_macro : forall s, RI.backl RI2.Mmacro (RI2.g_parse_macro cf src s) = RI.lunit (parse_macro cf src s).
+Proof. exact (RM.tie_parse_macro cf src Hcf Hcfp). Qed.
+End ParserL.
+Check Ktie_parse_macro : forall cf src, RI2.cfr_now cf -> RI2.cfr_now_props cf -> forall s, RI.backl RI2.Mmacro (RI2.g_parse_macro cf src s) = RI.lunit (parse_macro cf src s).
+Check Ktie_parse_pin : forall cf src, RI2.cfr_now cf -> RI2.cfr_now_props cf -> forall s, RI.backl RI2.Mpin (RI2.g_parse_pin cf src s) = RI.lunit (parse_pin cf src s).
+
 Print Assumptions Ktie_format_mask.
 Print Assumptions Ktie_format_geom.
 Print Assumptions Ktie_write_geom.
@@ -122,3 +238,28 @@ Print Assumptions Ktie_parse_ident.
 Print Assumptions Ktie_parse_number.
 Print Assumptions Ktie_parse_point.
 Print Assumptions Ktie_parse_density.
+Print Assumptions Ktie_parse_size.
+Print Assumptions Ktie_parse_units.
+Print Assumptions Ktie_parse_symmetries.
+Print Assumptions Ktie_parse_macro_class.
+Print Assumptions Ktie_expect_and_get_str.
+Print Assumptions Ktie_get_name.
+Print Assumptions Ktie_expect_ident.
+Print Assumptions Ktie_parse_site_def.
+Print Assumptions Ktie_parse_property.
+Print Assumptions Ktie_parse_pin_direction.
+Print Assumptions Ktie_parse_geometry_mask.
+Print Assumptions Ktie_parse_iterate.
+Print Assumptions Ktie_parse_step_pattern.
+Print Assumptions Ktie_parse_geometry_tail.
+Print Assumptions Ktie_parse_point_list.
+Print Assumptions Ktie_parse_geometry.
+Print Assumptions Ktie_parse_via_shape.
+Print Assumptions Ktie_parse_via_layer_geometries.
+Print Assumptions Ktie_parse_property_definition_tail.
+Print Assumptions Ktie_parse_property_definitions.
+Print Assumptions Ktie_parse_layer_geometries.
+Print Assumptions Ktie_parse_obstructions.
+Print Assumptions Ktie_parse_port.
+Print Assumptions Ktie_parse_pin.
+Print Assumptions Ktie_parse_macro.
